@@ -27,6 +27,11 @@ def instantiate_unit():
             ['-std=gnu++11', '-DNDEBUG', '-DMODULE_ID="verif"', '-I' + REPO + '/modules', '-I' + REPO + '/3rd-party'])
 
 
+def probe_unit():
+    """(path, flags) of the positive-example TU for zero-instance rules"""
+    return (os.path.join(VERIF, 'engine', 'probes.cc'), ['-std=gnu++11'])
+
+
 class AnalysisBroken(Exception):
     """An anchor entity vanished / a TU failed to parse / a rule lost its instances."""
 
